@@ -11,6 +11,7 @@ mod c03;
 mod c04;
 mod c05;
 mod c06;
+mod c08;
 mod c09;
 mod c10;
 mod c11;
@@ -18,6 +19,8 @@ mod c12;
 mod c13;
 mod c14;
 mod c15;
+mod c16;
+mod c17;
 mod c18;
 mod cat;
 mod lex;
@@ -92,6 +95,7 @@ fn registry(property: &str) -> Option<(RunFn, ReplayFn)> {
         "C05" => Some((c05::run_c05, c05::replay_c05)),
         "C06" => Some((c06::run_c06, c06::replay_c06)),
         "C07" => Some((c06::run_c07, c06::replay_c07)),
+        "C08" => Some((c08::run, c08::replay)),
         "C09" => Some((c09::run, c09::replay)),
         "C10" => Some((c10::run, c10::replay)),
         "C11" => Some((c11::run, c11::replay)),
@@ -99,6 +103,8 @@ fn registry(property: &str) -> Option<(RunFn, ReplayFn)> {
         "C13" => Some((c13::run, c13::replay)),
         "C14" => Some((c14::run, c14::replay)),
         "C15" => Some((c15::run, c15::replay)),
+        "C16" => Some((c16::run, c16::replay)),
+        "C17" => Some((c17::run, c17::replay)),
         "C18" => Some((c18::run, c18::replay)),
         "C19" => Some((c05::run_c19, c05::replay_c19)),
         _ => None,
@@ -151,6 +157,11 @@ fn main() {
             if infra {
                 std::process::exit(3);
             }
+        },
+        "c16dump" => {
+            let chunk: usize = args.get(2).and_then(|s| s.parse().ok()).unwrap_or(0);
+            let ctx = make_ctx("C16");
+            c16::dump(ctx.seed, chunk);
         },
         "worker" => {
             let wa = sup::parse_worker_args(&args);
